@@ -423,6 +423,34 @@ func runC07Flags(c *Ctx) {
 						}
 					}
 				}
+				if boundIdx < 0 {
+					// the loop runs over len(list) and a dominating guard says that a
+					// parameter equals len(list): that parameter bounds the loop as well
+					gs := guardsAt(call)
+					for _, g := range gs {
+						bo, ok := g.Cond.(*ssa.BinOp)
+						if !ok || bo.Op != token.LSS || !g.Truth {
+							continue
+						}
+						lst, ok := lenOf(bo.Y)
+						if !ok {
+							continue
+						}
+						for _, g2 := range gs {
+							b2, ok := g2.Cond.(*ssa.BinOp)
+							if !ok || !((b2.Op == token.EQL && g2.Truth) || (b2.Op == token.NEQ && !g2.Truth)) {
+								continue
+							}
+							for _, pr := range [][2]ssa.Value{{b2.X, b2.Y}, {b2.Y, b2.X}} {
+								par, isPar := pr[0].(*ssa.Parameter)
+								l2, isLen := lenOf(pr[1])
+								if isPar && isLen && (l2 == lst || sameValue(l2, lst)) {
+									boundIdx = paramIndex(f, par)
+								}
+							}
+						}
+					}
+				}
 				for _, cs := range callers {
 					if boundIdx >= 0 {
 						if k, ok := constInt(cs.Common().Args[boundIdx]); ok && k == 0 {
@@ -669,13 +697,16 @@ func dependsOn(v ssa.Value, isSource func(ssa.Value) bool) bool {
 	seen := map[ssa.Value]bool{}
 	var rec func(v ssa.Value, d int) bool
 	rec = func(v ssa.Value, d int) bool {
-		if v == nil || d > 12 || seen[v] {
+		if v == nil {
 			return false
 		}
-		seen[v] = true
 		if isSource(v) {
 			return true
 		}
+		if d > 12 || seen[v] {
+			return false
+		}
+		seen[v] = true
 		switch x := v.(type) {
 		case *ssa.Call:
 			for _, a := range x.Call.Args {
@@ -826,7 +857,7 @@ func checkCtypeFlow(c *Ctx, set []*ssa.Function, isSource func(ssa.Value) bool, 
 						if ok, why := membersTyped(list); !ok {
 							return "via " + name, false, why
 						}
-						if nonEmptyGuard(r, list) || madeNonEmpty(r, list) || appendedNonEmpty(list, map[ssa.Value]bool{}) {
+						if nonEmptyGuard(r, list) || madeNonEmpty(r, list) || appendedNonEmpty(list, map[ssa.Value]bool{}) || loopAppendedNonEmpty(r, list) {
 							return "via " + name, true, "list argument is provably non-empty (dominating guard), so the constructor derives the type from typed members"
 						}
 						return "via " + name, false, "collection constructor over a possibly empty list yields an XY geometry regardless of " + srcDesc + "; one such empty member strips Z/M from its siblings"
@@ -1084,4 +1115,54 @@ func onEveryPathAfter(a, b ssa.Instruction) bool {
 		work = append(work, blk.Succs...)
 	}
 	return true
+}
+
+// loopAppendedNonEmpty: list is the accumulator of a loop `for … range X` whose
+// body appends one element to it on every iteration, and X is known to be
+// non-empty at `at` — so at least one element was appended.
+func loopAppendedNonEmpty(at ssa.Instruction, list ssa.Value) bool {
+	phi, ok := stripLoad(list).(*ssa.Phi)
+	if !ok {
+		return false
+	}
+	h := phi.Block()
+	loop := naturalLoop(h)
+	if loop == nil {
+		return false
+	}
+	inside := 0
+	for i, e := range phi.Edges {
+		if !loop[h.Preds[i]] {
+			continue
+		}
+		inside++
+		call, ok := e.(*ssa.Call)
+		if !ok {
+			return false
+		}
+		b, ok := call.Call.Value.(*ssa.Builtin)
+		if !ok || b.Name() != "append" || call.Call.Args[0] != ssa.Value(phi) {
+			return false
+		}
+		// the append is executed on every iteration: its block dominates the back edge source
+		if !call.Block().Dominates(h.Preds[i]) {
+			return false
+		}
+	}
+	if inside == 0 {
+		return false
+	}
+	ifi, ok := h.Instrs[len(h.Instrs)-1].(*ssa.If)
+	if !ok {
+		return false
+	}
+	bo, ok := ifi.Cond.(*ssa.BinOp)
+	if !ok || bo.Op != token.LSS {
+		return false
+	}
+	x, ok := lenOf(bo.Y)
+	if !ok {
+		return false
+	}
+	return nonEmptyGuard(at, x)
 }
